@@ -39,6 +39,7 @@ mod h_mapper;
 mod h_tables;
 mod h_loop;
 mod h_bytes;
+mod h_escape;
 
 fn main() {
   let args: Vec<String> = std::env::args().collect();
@@ -54,6 +55,8 @@ fn main() {
     "loop" => h_loop::run(&opts),
     "bytes" => h_bytes::run(&opts),
     "replay-bytes" => h_bytes::replay(&opts),
+    "escape" => h_escape::run(&opts),
+    "replay-escape" => h_escape::replay(&opts),
     other => {
       eprintln!("unknown suite {}", other);
       2
